@@ -66,9 +66,9 @@ pub fn check_record(record: &str, shredder: bool) -> Result<bool, Failure> {
 
 pub fn run(ctx: &Ctx) -> Report {
     let mut rep = Report::new(ctx);
-    rep.rule = "Every position along generated histories (DFRC, seed FENs, constructed boards with inner-file rights, EP files, clocks at caps): {:#} text parses back via from_fen(true) and FromStr to an equal board (==, hash, checkers, pins, clocks); {} text likewise when all rights are on a/h; both texts equal the reference formatter applied to the accessor view character for character; consecutive boards of the walk, clock-modified copies, rebuilt copies and null-move results are compared as pairs: (a == b) == (text(a) == text(b)). Boards built from edited (near-invalid) builder states, when accepted, go through the same round-trip and canonical-text checks. Independently, canonical records written by the REFERENCE formatter for constructed states are parsed and formatted: the record must be reproduced exactly. In the thorough tier, pairs of different boards with EQUAL hashes are constructed by a generalised-birthday search over the extracted Zobrist keys (pairs differing only in piece kinds, and pairs differing only in piece colours) and go through the same pair check. Non-trivial = board with a right on an inner file, an EP file, or a clock at its cap, or a constructed collision pair; distinct by text hash.".into();
+    rep.rule = "Every position along generated histories (DFRC, seed FENs, constructed boards with inner-file rights, EP files, clocks at caps): {:#} text parses back via from_fen(true) and FromStr to an equal board (==, hash, checkers, pins, clocks); {} text likewise when all rights are on a/h; both texts equal the reference formatter applied to the accessor view character for character; consecutive boards of the walk, clock-modified copies, rebuilt copies and null-move results are compared as pairs: (a == b) == (text(a) == text(b)). Boards built from edited (near-invalid) builder states, when accepted, go through the same round-trip and canonical-text checks. Families of boards built from one constructed state that differ only in the clocks (a lattice around 0/100 and f/f+1 and the caps) or only in the castling rights (every assignment of rights to the back-rank rooks on the proper wing) are compared pairwise: equal exactly when the states are. Independently, canonical records written by the REFERENCE formatter for constructed states are parsed and formatted: the record must be reproduced exactly. In the thorough tier, pairs of different boards with EQUAL hashes are constructed by a generalised-birthday search over the extracted Zobrist keys (pairs differing only in piece kinds, and pairs differing only in piece colours) and go through the same pair check. Non-trivial = board with a right on an inner file, an EP file, or a clock at its cap, or a constructed collision pair; distinct by text hash.".into();
     rep.assumptions = vec!["reference to_fen() defines the canonical record (order: white short, white long, black short, black long; EP square on the passed rank; decimal clocks)".into()];
-    rep.required_classes = vec!["inner-file-right", "ep-file-set", "clock-at-cap", "plain-expressible", "pair-equal", "pair-different", "record-accepted-shredder", "record-accepted-plain", "accepted-edited-state"];
+    rep.required_classes = vec!["inner-file-right", "ep-file-set", "clock-at-cap", "plain-expressible", "pair-equal", "pair-different", "record-accepted-shredder", "record-accepted-plain", "accepted-edited-state", "placement-text-of-maximal-length-71", "family-pair-clocks-differ", "family-pair-rights-differ", "record-of-maximal-length-91"];
     rep.add(run_prop(
         ctx,
         "walk",
@@ -91,6 +91,12 @@ pub fn run(ctx: &Ctx) -> Report {
                 st.class_if(p.ep.is_some(), "ep-file-set");
                 st.class_if(cap, "clock-at-cap");
                 st.class_if(p.plain_fen_expressible(), "plain-expressible");
+                {
+                    let n = p.placement_text().len();
+                    st.class_if(n == 71, "placement-text-of-maximal-length-71");
+                    st.class_if((67..71).contains(&n), "placement-text-length-67-to-70");
+                    st.class_if(p.to_fen(true).len() == 91, "record-of-maximal-length-91");
+                }
                 if inner || p.ep.is_some() || cap {
                     st.nontrivial(fnv(p.to_fen(true).as_bytes()));
                 }
@@ -152,12 +158,108 @@ pub fn run(ctx: &Ctx) -> Report {
         let accepted = check_record(&record, use_shredder)?;
         if accepted {
             st.class(if use_shredder { "record-accepted-shredder" } else { "record-accepted-plain" });
+            st.class_if(record.len() == 91, "record-of-maximal-length-91");
+            st.class_if((88..91).contains(&record.len()), "record-length-88-to-90");
             if p.ep.is_some() || !p.plain_fen_expressible() || p.hm >= 100 || p.fm >= 65535 {
                 st.nontrivial(fnv(record.as_bytes()));
             }
             st.sample(|| record.clone());
         } else {
             st.count("record-rejected-by-library", 1);
+        }
+        Ok(())
+    }));
+    // families of boards that differ ONLY in clocks or ONLY in castling rights: every pair of a
+    // family must compare unequal (and have different texts). Equality folding several fields
+    // into one word shows here: (half-move 100, full-move f) vs (0, f+1); rights on neighbouring
+    // files of one side traded against a right of the other side.
+    rep.add(run_prop(ctx, "families", ctx.tier.scale(10_000, 25), || (arb_ingredients(), any::<u64>()), |(ing, sel): &(Ingredients, u64), st: &mut Stats| {
+        let mut base = assemble(ing);
+        if sel & 1 == 1 {
+            // skeleton with many rooks: both kings on their back ranks behind full pawn rows,
+            // rooks on a generated subset of the other back-rank squares
+            let mut sk = RawState::empty();
+            sk.stm = base.stm;
+            sk.hm = base.hm;
+            sk.fm = base.fm;
+            let (wk, bk) = (((sel >> 1) % 8) as i32, ((sel >> 4) % 8) as i32);
+            for f in 0..8i32 {
+                sk.board[sq(f, 1) as usize] = Some((Kind::P, Side::W));
+                sk.board[sq(f, 6) as usize] = Some((Kind::P, Side::B));
+                if f != wk && (sel >> (8 + f)) & 1 == 1 {
+                    sk.board[sq(f, 0) as usize] = Some((Kind::R, Side::W));
+                }
+                if f != bk && (sel >> (16 + f)) & 1 == 1 {
+                    sk.board[sq(f, 7) as usize] = Some((Kind::R, Side::B));
+                }
+            }
+            sk.board[sq(wk, 0) as usize] = Some((Kind::K, Side::W));
+            sk.board[sq(bk, 7) as usize] = Some((Kind::K, Side::B));
+            base = sk;
+        }
+        let mut family: Vec<(RawState, &str)> = Vec::new();
+        let f0 = base.fm.clamp(1, 65533);
+        let h0 = base.hm.min(99);
+        for (hm, fm) in [(0u8, f0), (100, f0), (0, f0 + 1), (100, f0 + 1), (99, f0), (1, f0 + 1), (h0, f0), (h0 + 1, f0), (h0, f0 + 1), (h0 + 1, f0 + 1), ((sel % 101) as u8, f0), (h0, 1 + (sel >> 8) as u16 % 65535), (0, 1), (100, 1), (0, 65535), (100, 65535), (100, 65534)] {
+            let mut v = base.clone();
+            v.hm = hm;
+            v.fm = fm;
+            family.push((v, "clocks"));
+        }
+        let n_clock = family.len();
+        // all assignments of rights to own back-rank rooks on the proper side of a back-rank king
+        let mut slots: Vec<(usize, usize, Vec<Option<u8>>)> = Vec::new();
+        for side in [Side::W, Side::B] {
+            let br = side.back_rank();
+            let Some(k) = base.king_sq(side) else { continue };
+            if rank_of(k) != br {
+                continue;
+            }
+            for wing in 0..2usize {
+                let mut opts = vec![None];
+                for f in 0..8i32 {
+                    let on_wing = if wing == 0 { f > file_of(k) } else { f < file_of(k) };
+                    if on_wing && base.board[sq(f, br) as usize] == Some((Kind::R, side)) {
+                        opts.push(Some(f as u8));
+                    }
+                }
+                slots.push((side.idx(), wing, opts));
+            }
+        }
+        let total: usize = slots.iter().map(|s| s.2.len()).product();
+        let stride = (total / 96).max(1);
+        let mut idx = (*sel as usize >> 24) % stride;
+        while idx < total {
+            let mut v = base.clone();
+            let mut rest = idx;
+            for (side, wing, opts) in &slots {
+                v.rights[*side][*wing] = opts[rest % opts.len()];
+                rest /= opts.len();
+            }
+            family.push((v, "rights"));
+            idx += stride;
+        }
+        let boards: Vec<Option<Board>> = family.iter().map(|(s, _)| build(s)).collect();
+        for i in 0..family.len() {
+            let Some(a) = &boards[i] else { continue };
+            st.eval(1);
+            let range = if i < n_clock { 0..n_clock } else { n_clock..family.len() };
+            for j in range {
+                if j <= i {
+                    continue;
+                }
+                let Some(b) = &boards[j] else { continue };
+                let same_state = family[i].0 == family[j].0;
+                st.class(if same_state { "family-pair-same-state" } else if family[i].1 == "clocks" { "family-pair-clocks-differ" } else { "family-pair-rights-differ" });
+                if family[i].1 == "rights" && !same_state && j == i + 1 {
+                    st.nontrivial(fnv(format!("{}|{}", family[i].0.text(), family[j].0.text()).as_bytes()));
+                }
+                if (a == b) != same_state {
+                    let (ta, tb) = (format!("{:#}", a), format!("{:#}", b));
+                    return Err(Failure::new("C07:equality-vs-text", format!("boards built from states differing only in {}: equal = {}, states equal = {} ('{}' / '{}')", family[i].1, a == b, same_state, ta, tb)).with("fen_a", ta).with("fen_b", tb));
+                }
+                check_pair(a, b, "family pair")?;
+            }
         }
         Ok(())
     }));
